@@ -253,7 +253,7 @@ func checkC15(c *Ctx) {
 	}
 	tx := p.Tx()
 	sq := p.Func("queue", "(*SQLiteStore).EnqueueBatch")
-	c.Check(sq != nil && isTx(tx, sq), "C15.R3", "sqlite.EnqueueBatch:one-transaction", "", "begin..commit function (typestate decided by C01.R2)", "SQLite EnqueueBatch is not a single transaction function")
+	c.Check(sq != nil && isTx(tx, p.Orig(sq)), "C15.R3", "sqlite.EnqueueBatch:one-transaction", "", "begin..commit function (typestate decided by C01.R2)", "SQLite EnqueueBatch is not a single transaction function")
 	checkFailedOpEffectFree(c, "C15.R3", func(r string) bool { return r == "EnqueueBatch" })
 
 	// builder guards
